@@ -177,9 +177,9 @@ type item struct {
 
 func arity(op string) int {
 	switch op {
-	case "gc":
+	case "gc", "start", "stop":
 		return 0
-	case "sl", "get", "del", "ex", "ttl", "getl", "hall", "gck", "holdcheck":
+	case "cl", "sl", "get", "watch", "del", "ex", "ttl", "getl", "hall", "gck", "holdcheck":
 		return 1
 	case "exp", "app", "rem", "hget", "hdel", "incr":
 		return 2
@@ -336,6 +336,12 @@ func doCall(st types.FullStorage, it item) (obs string) {
 		return errTok(st.CleanupExpired())
 	case "holdcheck":
 		return holdCheck(st, keyOf(a[0]))
+	case "watch": // the callback fires at once with the current value of a visible key: answers like Get
+		o := "nf"
+		if err := st.Watch(keyOf(a[0]), func(v any) { o = renderAny(v) }); err != nil {
+			return errTok(err)
+		}
+		return o
 	case "gck":
 		return "ok" // second critical section of another caller's GetHash: not callable by itself
 	}
@@ -370,17 +376,53 @@ func runMem(items []item) string {
 				t0 = time.Now()
 				continue
 			}
+			if it.op == "start" || it.op == "stop" {
+				// lifecycle of the periodic sweep: answers nothing; a panic is an observation
+				if p := lifeCall(st, it.op); p != "" {
+					obs = append(obs, p)
+				}
+				continue
+			}
+			if it.op == "cl" {
+				continue
+			}
 			obs = append(obs, doCall(st, it))
 		}
 		if time.Since(t0) > burstMax {
 			valid = false
 		}
-		st.Close()
+		if p := closeCall(st); p != "" {
+			obs = append(obs, p)
+		}
 		if valid {
 			break
 		}
 	}
 	return strings.Join(obs, " ")
+}
+
+func closeCall(st *memory.Storage) (p string) {
+	defer func() {
+		if r := recover(); r != nil {
+			p = "panic:close:" + sanitize(fmt.Sprint(r))
+		}
+	}()
+	st.Close()
+	return ""
+}
+
+func lifeCall(st *memory.Storage, op string) (p string) {
+	defer func() {
+		if r := recover(); r != nil {
+			p = "panic:" + sanitize(fmt.Sprint(r))
+		}
+	}()
+	if op == "start" {
+		st.StartCleanup(200 * time.Microsecond)
+	} else {
+		st.StopCleanup()
+	}
+	return ""
 }
 
 func runRed(items []item) string {
@@ -394,13 +436,29 @@ func runRed(items []item) string {
 		return "err:connect"
 	}
 	defer st.Close()
+	// a second node: another redis.Storage over the same server (`cl 1` / `cl 0` switches)
+	st2, err := redisst.New(context.Background(), &redisst.Config{Addr: mr.Addr()})
+	if err != nil {
+		return "err:connect"
+	}
+	defer st2.Close()
+	clients := []types.FullStorage{st, st2}
+	cur := 0
 	var obs []string
 	for _, it := range items {
 		if it.op == "sl" {
 			mr.FastForward(ttlOf(it.args[0]))
 			continue
 		}
-		obs = append(obs, doCall(st, it))
+		if it.op == "cl" {
+			cur, _ = strconv.Atoi(it.args[0])
+			cur %= 2
+			continue
+		}
+		if it.op == "start" || it.op == "stop" {
+			continue
+		}
+		obs = append(obs, doCall(clients[cur], it))
 	}
 	return strings.Join(obs, " ")
 }
@@ -408,7 +466,7 @@ func runRed(items []item) string {
 func callsOf(items []item) []item {
 	var out []item
 	for _, it := range items {
-		if it.op != "sl" {
+		if it.op != "sl" && it.op != "start" && it.op != "stop" && it.op != "cl" {
 			out = append(out, it)
 		}
 	}
@@ -793,6 +851,8 @@ func execLine(line string, rounds int) []string {
 		return nil
 	}
 	switch ts[0] {
+	case "repo":
+		return runRepo(ts[1:])
 	case "alias":
 		its, err := parseAlias(ts[1:])
 		if err != nil {
@@ -847,9 +907,9 @@ func execLine(line string, rounds int) []string {
 		if e1 != nil || e2 != nil || e3 != nil {
 			return []string{"bad-case"}
 		}
-		copies, br := 12, 2
+		copies, br := 12, 1
 		if rounds > 1000 { // thorough
-			br = 12
+			br = 8
 		}
 		return runBurst(pre, progs, callsOf(suf), copies, br)
 	}
@@ -905,6 +965,8 @@ func modeOf(line string) string {
 		return ""
 	}
 	switch ts[0] {
+	case "repo":
+		return "repo"
 	case "mem", "alias":
 		return "mem"
 	case "red":
@@ -984,6 +1046,8 @@ func main() {
 			lines = append(lines, genRed(rng, thorough)...)
 		case "conc":
 			lines = append(lines, genConc(rng, thorough)...)
+		case "repo":
+			lines = append(lines, genRepo(rng, thorough)...)
 		}
 	}
 
@@ -1031,6 +1095,11 @@ func main() {
 		k, c := splitKey(l)
 		ts := strings.Fields(c)
 		for _, o := range results[i] {
+			if j := strings.Index(o, " ## "); j >= 0 { // a full line (repo cases emit several cases)
+				out.Case(o[:j], o[j+4:], o[:j])
+				out.Count("kind:" + strings.Fields(o)[0])
+				continue
+			}
 			cs := c
 			if k != "" {
 				cs = k + " " + c
